@@ -4,6 +4,8 @@ pub mod c05;
 pub mod c07;
 pub mod c08;
 pub mod c09;
+pub mod c10;
+pub mod c11;
 pub mod c13;
 
 /// entry for internal child-process sub-commands
